@@ -131,7 +131,12 @@ def sequence(spec):
         if route == "abs_ins" and msgs:
             perm = spec.get("perm") or []
             keyed = sorted(order, key=lambda i: (perm[i % len(perm)] if perm else 0, i))
-            order = _tie_fix(keyed, msgs)
+            if spec.get("untied"):
+                # every note-on is added before every note-off: on one tick the absolute list then stores a note-on ahead of the
+                # note-off of the touching earlier note (only the library's own canonical sort puts them right)
+                order = sorted(keyed, key=lambda i: 0 if msgs[i].message_type == MT.NOTE_ON else 1)
+            else:
+                order = _tie_fix(keyed, msgs)
         for i in order:
             s.add_absolute_message(msgs[i])
     for e in spec.get("extra_abs", []):
